@@ -89,6 +89,8 @@ func Serve(sockpath, dbpath string, opts ServeOpts) int {
 
 	connCh := make(chan net.Conn, 10)
 	listenErrCh := make(chan error, 1)
+	// Closed when the main loop has exited and no longer receives from connCh.
+	stopCh := make(chan struct{})
 	go func() {
 		for {
 			conn, err := listener.Accept()
@@ -97,7 +99,13 @@ func Serve(sockpath, dbpath string, opts ServeOpts) int {
 				close(listenErrCh)
 				return
 			}
-			connCh <- conn
+			select {
+			case connCh <- conn:
+			case <-stopCh:
+				// Nobody is going to serve this connection. Don't block on
+				// connCh, which may be full: Serve waits for this goroutine.
+				conn.Close()
+			}
 		}
 	}()
 
@@ -155,6 +163,8 @@ loop:
 			}
 		}
 	}
+
+	close(stopCh)
 
 	err = os.Remove(sockpath)
 	if err != nil {
